@@ -233,3 +233,131 @@ B('f_c12_ctor_part_method_called_later', ['C12'], 'R12.b',
   (R, _BIND, "    def _collect_resources(self, route, app):\n        def of(obj):\n            return getattr(obj, 'resources', {})\n"
              "        self.resources = dict(of(app))\n        self.resources.update(of(route))\n\n"
              "    def refresh(self, app):\n        self._collect_resources(self.unbound_route, app)\n\n" + _BIND))
+
+# ---- C12 / R12.a: ownership of what a per-request object holds --------------------------------------------------------
+# A field of a per-request object that is updated in place (method call, ``op=``, through a local naming it) only ever
+# receives objects allocated by the storing activation.
+_UM = '        if methods:\n            self.allowed_methods.update(methods)\n'
+_UMCALL = '                dispatch_state.update_methods(route.methods)\n'
+_DSI = '        self.allowed_methods = set()\n'
+# guard clauses; the first restricted route's own set is adopted, later ones are unioned into it with ``|=``
+B('f_c12_adopt_then_ior', ['C12'], 'R12.a',
+  (A, _UM, '        if not methods:\n            return\n        if not self.allowed_methods:\n            self.allowed_methods = methods\n            return\n'
+           '        self.allowed_methods |= methods\n'))
+# lazily initialised (None), adopted on first use, ``|=`` afterwards
+B('f_c12_adopt_when_none_then_ior', ['C12'], 'R12.a',
+  (A, _DSI, '        self.allowed_methods = None\n'),
+  (A, _UM, '        if not methods:\n            return\n        if self.allowed_methods is None:\n            self.allowed_methods = methods\n'
+           '        self.allowed_methods |= methods\n'))
+# adoption through a local, in-place update by method call
+B('f_c12_adopt_via_local_then_update', ['C12'], 'R12.a',
+  (A, _UM, '        first = methods\n        if methods and not self.allowed_methods:\n            self.allowed_methods = first\n'
+           '        elif methods:\n            self.allowed_methods.update(methods)\n'))
+# ... member by member
+B('f_c12_adopt_then_add', ['C12'], 'R12.a',
+  (A, _UM, '        if methods and not self.allowed_methods:\n            self.allowed_methods = methods\n            return\n'
+           '        for m in methods or ():\n            self.allowed_methods.add(m)\n'))
+# the in-place update goes through a local that names the field's object
+B('f_c12_adopt_then_ior_through_alias', ['C12'], 'R12.a',
+  (A, _UM, '        if not methods:\n            return\n        seen = self.allowed_methods\n        if not seen:\n            self.allowed_methods = methods\n'
+           '            return\n        seen |= methods\n'))
+# the adoption happens outside the class, where the dispatch state is at hand under its role name
+B('f_c12_adopt_from_dispatch_loop', ['C12'], 'R12.a',
+  (A, _UMCALL, '                if dispatch_state.allowed_methods:\n                    dispatch_state.update_methods(route.methods)\n'
+               '                else:\n                    dispatch_state.allowed_methods = route.methods\n'))
+# ... by setattr / in an unpacking assignment
+B('f_c12_adopt_by_setattr', ['C12'], 'R12.a',
+  (A, _UM, "        if methods and not self.allowed_methods:\n            setattr(self, 'allowed_methods', methods)\n"
+           '        elif methods:\n            self.allowed_methods.update(methods)\n'))
+B('f_c12_adopt_in_unpacking', ['C12'], 'R12.a',
+  (A, _UM, '        if methods and not self.allowed_methods:\n            self.allowed_methods, self.first_methods = methods, True\n'
+           '        elif methods:\n            self.allowed_methods.update(methods)\n'))
+# a list field: module-level "empty" default shared by every dispatch state, extended with ``+=``
+B('f_c12_shared_default_list_iadd', ['C12'], 'R12.a',
+  (A, 'class DispatchState(object):\n', '_NO_EXCEPTIONS = []\n\n\nclass DispatchState(object):\n'),
+  (A, '        self.exceptions = []\n', '        self.exceptions = _NO_EXCEPTIONS\n'),
+  (A, '        self.exceptions.append(exception)\n', '        self.exceptions += [exception]\n'))
+# an augmented assignment on a local that names a shared object is an in-place update of that object
+B('f_c12_route_set_ior_through_local', ['C12'], 'R12.a',
+  (A, _UMCALL, '                refused = route.methods\n                refused |= dispatch_state.allowed_methods\n'
+               '                dispatch_state.update_methods(refused)\n'))
+B('f_c12_param_ior', ['C12'], 'R12.a',
+  (A, _UM, '        if methods:\n            methods |= self.allowed_methods\n            self.allowed_methods = set(methods)\n'))
+# equivalent correct spellings
+T('f_c12_guard_clause_ior_own_set', ['C12'],
+  (A, _UM, '        if not methods:\n            return\n        self.allowed_methods |= methods\n'))
+T('f_c12_copy_then_ior', ['C12'],
+  (A, _UM, '        if not methods:\n            return\n        if not self.allowed_methods:\n            self.allowed_methods = set(methods)\n            return\n'
+           '        self.allowed_methods |= methods\n'))
+T('f_c12_copy_through_local_then_update', ['C12'],
+  (A, _UM, '        if not methods:\n            return\n        own = set(methods)\n        if not self.allowed_methods:\n            self.allowed_methods = own\n'
+           '        else:\n            self.allowed_methods.update(own)\n'))
+T('f_c12_rebuilding_union', ['C12'],
+  (A, _UM, '        if methods:\n            self.allowed_methods = self.allowed_methods | methods\n'))
+T('f_c12_lazy_none_own_set', ['C12'],
+  (A, _DSI, '        self.allowed_methods = None\n'),
+  (A, _UM, '        if not methods:\n            return\n        if self.allowed_methods is None:\n            self.allowed_methods = set()\n'
+           '        self.allowed_methods |= methods\n'))
+T('f_c12_update_through_alias_own_set', ['C12'],
+  (A, _UM, '        seen = self.allowed_methods\n        if methods:\n            seen |= methods\n'))
+T('f_c12_update_from_dispatch_loop', ['C12'],
+  (A, _UMCALL, '                if route.methods:\n                    dispatch_state.allowed_methods |= route.methods\n'))
+# a counter field re-bound with ``+=`` may be seeded from a number handed in
+T('f_c12_counter_field', ['C12'],
+  (A, '    def __init__(self):\n        self.exceptions = []\n', '    def __init__(self, first_attempt=0):\n        self.attempts = first_attempt\n        self.exceptions = []\n'),
+  (A, '        self.attempted_routes.append(route)\n', '        self.attempted_routes.append(route)\n        self.attempts += 1\n'))
+T('f_c12_local_accumulators', ['C12'],
+  (A, _UMCALL, '                refused = set()\n                refused |= route.methods\n                dispatch_state.update_methods(refused)\n'))
+T('f_c12_copy_method_then_ior', ['C12'],
+  (A, _UM, '        if not methods:\n            return\n        if not self.allowed_methods:\n            self.allowed_methods = methods.copy()\n            return\n'
+           '        self.allowed_methods |= methods\n'))
+T('f_c12_union_through_local_then_update', ['C12'],
+  (A, _UM, '        if methods:\n            merged = self.allowed_methods.union(methods)\n            self.allowed_methods = merged\n            self.allowed_methods.discard(None)\n'))
+
+# ---- C13 / R13.b: the stack being wrapped is named first; the walk runs over a list of groups --------------------------
+_SEH = "        self._dispatch_wsgi = _safe_wrap_wsgi('error_handler', error_handler, self._dispatch_wsgi)\n"
+_WL = "            self._dispatch_wsgi = _safe_wrap_wsgi('middleware', mw, self._dispatch_wsgi)\n"
+T('f_c13_inner_named_before_wrap', ['C13'],
+  (A, _SEH, "        inner_wsgi = self._dispatch_wsgi\n"
+            "        self._dispatch_wsgi = _safe_wrap_wsgi(source_name='error_handler', source=error_handler, inner=inner_wsgi)\n"),
+  (A, _WL, "            below = self._dispatch_wsgi\n            self._dispatch_wsgi = _safe_wrap_wsgi('middleware', mw, below)\n"))
+# the stack is read once, before the loop: every wrapper wraps the bare application, only the last one survives
+B('f_c13_inner_read_before_loop', ['C13'], 'R13.b',
+  (A, '        for mw in reversed(all_mws):\n' + _WL,
+      "        below = self._dispatch_wsgi\n        for mw in reversed(all_mws):\n            self._dispatch_wsgi = _safe_wrap_wsgi('middleware', mw, below)\n"))
+# ... read before the render check re-installs a handler
+B('f_c13_inner_read_before_rebinding_call', ['C13'], 'R13.b',
+  (A, '        check_render_error(error_handler.render_error, self.resources)\n' + _SEH,
+      "        inner_wsgi = self._dispatch_wsgi\n        if error_handler is not self.error_handler_fallback:\n            self.set_error_handler(self.error_handler_fallback)\n"
+      "        check_render_error(error_handler.render_error, self.resources)\n"
+      "        self._dispatch_wsgi = _safe_wrap_wsgi('error_handler', error_handler, inner_wsgi)\n"))
+B('f_c13_inner_is_not_the_stack', ['C13'], 'R13.b',
+  (A, _SEH, "        inner_wsgi = self._dispatch_wsgi_unwrapped\n"
+            "        self._dispatch_wsgi = _safe_wrap_wsgi('error_handler', error_handler, inner_wsgi)\n"))
+_GMA = ('    for mw in app_middlewares:\n'
+        '        if mw not in all_mw:\n'
+        '            all_mw.append(mw)\n'
+        '\n')
+_GROUP_LOOP = ('    for mw_group in mw_groups:\n        for mw in mw_group:\n'
+               '            if mw not in all_mw:\n                all_mw.append(mw)\n')
+T('f_c13_collect_groups_list', ['C13'],
+  (A, _GMA, ''),
+  (A, _GM, '    mw_groups = [app_middlewares]\n    mw_groups.extend(broute.middlewares for broute in reversed(bound_routes))\n' + _GROUP_LOOP))
+T('f_c13_collect_groups_concatenated', ['C13'],
+  (A, _GMA, ''),
+  (A, _GM, '    mw_groups = [app_middlewares] + [broute.middlewares for broute in reversed(bound_routes)]\n' + _GROUP_LOOP))
+# the application's own group comes after the routes' groups
+B('f_c13_collect_groups_app_last', ['C13'], 'R13.b',
+  (A, _GMA, ''),
+  (A, _GM, '    mw_groups = [broute.middlewares for broute in reversed(bound_routes)]\n    mw_groups.append(app_middlewares)\n' + _GROUP_LOOP))
+# the application's own group is missing / only present per route
+B('f_c13_collect_groups_routes_only', ['C13'], 'R13.d',
+  (A, _GMA, ''),
+  (A, _GM, '    mw_groups = []\n    mw_groups.extend(broute.middlewares for broute in reversed(bound_routes))\n' + _GROUP_LOOP))
+B('f_c13_collect_groups_app_per_route', ['C13'], 'R13.d',
+  (A, _GMA, ''),
+  (A, _GM, '    mw_groups = []\n    mw_groups.extend(app_middlewares + broute.middlewares for broute in reversed(bound_routes))\n' + _GROUP_LOOP))
+# the groups hold each route's list backwards
+B('f_c13_collect_groups_inner_reversed', ['C13'], 'R13.b',
+  (A, _GMA, ''),
+  (A, _GM, '    mw_groups = [app_middlewares]\n    mw_groups.extend(broute.middlewares[::-1] for broute in reversed(bound_routes))\n' + _GROUP_LOOP))
